@@ -139,3 +139,109 @@ def scenario_key(scn: dict, extra: Any = None) -> str:
 
 def exits_summary(ctx: RunContext) -> list:
     return [list(e) for e in ctx.exits]
+
+
+# ---------------------------------------------------------------------------
+# gradient reference
+def unperturbed_source(ctx: RunContext, ln: Linked):
+    """(call, rows) holding the unperturbed values used for this gradient result."""
+    nr = model.cfg_counts(ln.cfg)["nr"]
+    if ln.call.kind == "fg":
+        return ln.call, np.arange(0, nr)
+    # gradient-only: the cached function result = first vector of the latest functions-only call
+    for c in reversed(ctx.evaluator.calls[: ln.call.k]):
+        if c.kind == "f" and c.config is ln.call.config and c.obj is not None:
+            return c, np.arange(0, nr)
+    return None, None
+
+
+def gradient_reference(ctx: RunContext, ln: Linked, *, exact_slopes: np.ndarray | None = None):
+    """Reference gradients for one GradientResults (optimizer domain, full length).
+
+    Per realization least squares on the *reported* perturbation differences restricted to
+    free columns and successful rows, under the C02 conditioning predicate; then the
+    estimator's chain rule with the weights in force (failed realizations zeroed,
+    renormalised).  Returns dict with per-function entries:
+        {"ref": array | None, "why": reason when None}
+    plus the model's failure flags.  ``exact_slopes`` (nr, nf, nv_free; optimizer domain)
+    replaces the least-squares solve (C02, affine worlds)."""
+    cfg = ln.cfg
+    c = model.cfg_counts(cfg)
+    nr, npert = c["nr"], c["np"]
+    tm = tm_for(ctx, cfg)
+    mask = model.mask_of(cfg)
+    gr = ln.opt
+    x = np.asarray(gr.evaluations.variables, dtype=float)
+    pv = np.asarray(gr.evaluations.perturbed_variables, dtype=float)
+    ucall, urows = unperturbed_source(ctx, ln)
+    if ucall is None:
+        return None
+    y0o = tm.obj_to_opt(ucall.obj[urows])
+    y0c = None if ucall.con is None else tm.con_to_opt(ucall.con[urows])
+    ypo = tm.obj_to_opt(ln.call.obj[ln.rows]).reshape(nr, npert, -1)
+    ypc = None if ln.call.con is None else tm.con_to_opt(ln.call.con[ln.rows]).reshape(nr, npert, -1)
+    f_failed = np.any(np.isnan(ucall.obj[urows]), axis=1)
+    if ucall.con is not None:
+        f_failed |= np.any(np.isnan(ucall.con[urows]), axis=1)
+    p_failed = np.any(np.isnan(ln.call.obj[ln.rows]), axis=1)
+    if ln.call.con is not None:
+        p_failed |= np.any(np.isnan(ln.call.con[ln.rows]), axis=1)
+    p_failed = p_failed.reshape(nr, npert)
+    succ_count = (~p_failed).sum(axis=1)
+    failed = f_failed | (succ_count < model.perturbation_min_success(cfg))
+    out = {"failed": failed, "f_failed": f_failed, "p_failed": p_failed, "funcs": {}, "x": x, "mask": mask}
+    D = (pv - x[None, None, :])[:, :, mask]
+    merge = bool(cfg.get("gradient", {}).get("merge_realizations", False))
+    out["merge"] = merge
+    for kind, n, y0, yp in (("o", c["no"], y0o, ypo), ("c", c["nc"], y0c, ypc)):
+        for j in range(n):
+            w, filtered = weights_in_force(ln, kind, j)
+            entry = {"ref": None, "why": None, "filtered": filtered}
+            out["funcs"][(kind, j)] = entry
+            if w is None:
+                entry["why"] = "no-filter-weights"
+                continue
+            w = np.where(failed, 0.0, w)
+            if w.sum() <= 0 or np.any(w < 0):
+                entry["why"] = "no-positive-weight-success"
+                continue
+            wn = w / w.sum()
+            est = model.estimator_of(cfg, kind, j)
+            entry["est"] = est
+            G = np.zeros((nr, int(mask.sum())))
+            ok = True
+            for r in range(nr):
+                if wn[r] <= 0:
+                    continue
+                s = ~p_failed[r]
+                if exact_slopes is not None:
+                    fi = j if kind == "o" else c["no"] + j
+                    G[r] = exact_slopes[r, fi]
+                    if not model.lstsq_ok(D[r][s]):
+                        ok = False
+                        break
+                    continue
+                Dr = D[r][s]
+                if not model.lstsq_ok(Dr):
+                    ok = False
+                    break
+                df = yp[r, s, j] - y0[r, j]
+                G[r] = np.linalg.lstsq(Dr, df, rcond=None)[0]
+            if not ok:
+                entry["why"] = "ill-conditioned"
+                continue
+            if merge:
+                entry["why"] = "merged"
+                entry["G"], entry["wn"] = G, wn
+                continue
+            ref = model.estimate_gradient(est, y0[:, j], G, wn)
+            if ref is None:
+                entry["why"] = "estimator-undefined"
+                continue
+            if isinstance(ref, str):
+                entry["why"] = "stddev-degenerate"
+                continue
+            full = np.zeros(mask.size)
+            full[mask] = ref
+            entry["ref"] = full
+    return out
